@@ -361,26 +361,10 @@ void *array::append(size_t len, const void *data)
 }
 void *array::insert(size_t off, size_t len, const void *data)
 {
-	void *dest = 0;
-	content *d;
-	
-	/* compatibility check */
-	if ((d = _buf.instance())
-	 && !d->content_traits()
-	 && !d->shared()) {
-		dest = d->insert(off, len);
-	}
+	void *dest = mpt_array_insert(this, off, len);
 	if (!dest) {
-		size_t total = off + len;
-		if (!(d = static_cast<content *>(buffer::create(total)))) {
-			return 0;
-		}
-		if (!(dest = d->insert(off, len))) {
-			d->unref();
-			return 0;
-		}
+		return 0;
 	}
-	dest = static_cast<uint8_t *>(dest) + off;
 	if (data) {
 		memcpy(dest, data, len);
 	} else {
